@@ -730,7 +730,7 @@ func runC19(w *World, r *Report) {
 
 	// ---- what is sent to a skipped node (through a data-only edge, or an edge next to a branch that did not pick it) is
 	// given up properly: reportValues closes the stream copies it is not going to keep
-	r.Rule("C19.skipped-drops-closed", "dagChannel.reportValues: the early return taken for a skipped channel closes the stream values it was handed", 1)
+	r.Rule("C19.skipped-drops-closed", "a skipped DAG channel closes the stream values it will never hand out: those reported after the skip (reportValues) and those already stored when the skip arrives (reportSkip)", 2)
 	{
 		rv := w.Fn("compose", "dagChannel.reportValues")
 		fSkipped := skipFlagOf(w)
@@ -772,6 +772,43 @@ func runC19(w *World, r *Report) {
 		if n == 0 {
 			r.Fail("C19.skipped-drops-closed", "reportValues: skipped arm", rv.Pos(), "no test of the skip flag found in reportValues")
 		}
+	}
+
+	// … and what had ALREADY been delivered when the node becomes skipped (the value arrived first, the skip second —
+	// which of the two comes first depends on the schedule) is given up at that moment
+	{
+		rs := w.Fn("compose", "dagChannel.reportSkip")
+		fValues := w.Field("compose", "dagChannel", "Values")
+		fSk := skipFlagOf(w)
+		var skStore *ssa.Store
+		for _, fw := range fieldWrites(rs) {
+			if sameField(fw.field, fSk) {
+				skStore, _ = fw.in.(*ssa.Store)
+			}
+		}
+		good, det := false, "reportSkip does not set the skip flag"
+		if skStore != nil {
+			det = "no close of the values stored in the channel on the arm on which the channel has become skipped"
+			instrs(rs, func(in ssa.Instruction) {
+				if invokeName(in) != "close" {
+					return
+				}
+				// inside a range over ch.Values, on an arm guarded by the very value stored into the skip flag
+				rangesValues := false
+				for _, b := range rs.Blocks {
+					for _, x := range b.Instrs {
+						if rg, ok := x.(*ssa.Range); ok && isLoadOfField(rg.X, fValues) && instrDominates(rg, in) {
+							rangesValues = true
+						}
+					}
+				}
+				guarded := hasGuard(in.Block(), func(g guard) bool { return g.pol && g.cond == skStore.Val })
+				if rangesValues && guarded {
+					good = true
+				}
+			})
+		}
+		r.Check(good, "C19.skipped-drops-closed", "reportSkip: a channel that becomes skipped closes the stream values it already holds", rs.Pos(), "range over Values closing the stream readers, under the skipped condition", det+": a stream copy delivered to a node BEFORE a branch skips it (data-only input of a branch target) stays in the channel unread and unclosed — the producer stays blocked once the caller closes early; the opposite order is handled by reportValues")
 	}
 
 	// ---- the stream callback handlers the module itself ships (react's message future, the callback templates) give up
